@@ -25,6 +25,8 @@ SEED_EXPECT = {
     "C17-1": "R17.7", "C17-2": "R17.5", "C18-1": "R18.2", "C18-2": "R18.7", "C19-1": "R19.2d", "C19-2": "R19.3a",
     "C20-1": "R20.1", "C20-2": "R20.4",
     "C16-3": "R16.1", "C16-4": "R16.1", "C15-3": "R15.3", "C14-3": "R14.6", "C05-3": "R5.6", "C05-4": "R5.5",
+    "C07-3": "R7.7", "C07-4": "R7.6", "C08-3": "R8.7", "C08-4": "R8.8", "C04-3": "R4.1", "C04-4": "R4.3", "C18-3": "R18.3",
+    "C12-3": "R12.2", "C12-4": "R12.6", "C02-3": "R2.5", "C02-4": "R2.4", "C09-3": "R9.1", "C01-3": "R1.4", "C01-4": "R1.2",
     "C03-3": "R3.6", "C03-4": "R3.6", "C11-1": "R11.7", "C11-2": "R11.6",
 }
 byprop = {}
